@@ -103,6 +103,11 @@ def run(ctx):
         ctx.probe("equal_but_not_identical_keys")
     if ch.coin(1, 5, "two-maps-one-dict"):
         return run_two_maps(ctx)
+    large = ch.coin(1, 10, "size-class-large")
+    if large:
+        # size class: a map of up to ~100 pairs and a long history (thresholds, resizing of the underlying tables)
+        alpha = list(range(60)) + [f"s{i}" for i in range(30)] + [(i,) for i in range(10)]
+        ctx.probe("large_map")
     # construction
     kind = ch.draw(4, "init")
     if kind == 0:
@@ -132,9 +137,9 @@ def run(ctx):
         for k, v in pairs.items():
             m.insert(k, v)
     compare(ctx, bm, m, "init")
-    nsteps = 1 + ch.draw(40, "nsteps")
+    nsteps = 1 + ch.draw(40, "nsteps") + (100 + ch.draw(300, "nsteps-large") if large else 0)
     for _ in range(nsteps):
-        op = ch.weighted([4, 4, 3, 2, 2, 2], "op")
+        op = ch.weighted([8, 8, 6, 2, 2, 2] if large and len(m.fwd) < 70 else [4, 4, 3, 2, 2, 2], "op")
         a, b = ch.pick(alpha, "a"), ch.pick(alpha, "b")
         if big:
             # rebuild the arguments at run time: equal to earlier ones, not the same objects
@@ -187,8 +192,10 @@ def run(ctx):
                         f"{name}:got-{exc}-expected-{expect}", {"arg": _r(a), "model": _r(m.fwd)}, stop=True)
         if expect == "KeyError":
             ctx.probe("absent_delete")
-        compare(ctx, bm, m, name)
-    ctx.profile = {"init": kind}
+        compare(ctx, bm, m, name, alpha if large else None)
+        if large and len(m.fwd) >= 50:
+            ctx.probe("map_of_50_pairs_or_more")
+    ctx.profile = {"init": kind, "large": large}
 
 
 def run_two_maps(ctx):
